@@ -965,7 +965,10 @@ class Program:
                 r = lv_root(tgt)
                 if r and r[0] in GLOBKINDS:
                     k = self.gkey(f, r[0], r[1])
-                    if is_deref_path(r[2]):
+                    gi0 = self.ginfo(f, r[0], r[1]) if r[2] == ('*',) else None
+                    if gi0 is not None and 'arr' in gi0['type']:
+                        how = 'elem'      # *Array = x stores the first element
+                    elif is_deref_path(r[2]):
                         how = 'ptr'
                     elif r[2]:
                         how = 'elem'
